@@ -78,7 +78,25 @@ type Lemma struct {
 	Pkg      string
 }
 
+// ShapeSpec pins the declaration of a struct type whose encoding is driven by reflection over its fields and tags
+// (encoding/asn1, encoding/json): field order and the option sets of the tags, taken from the RFC/ASN.1 module.
+type ShapeSpec struct {
+	Type  string // package-qualified type name
+	Props []string
+	File  string
+	Pkg   string
+	Lines []ShapeLine
+}
+
+type ShapeLine struct {
+	Kind  string // asn1 | json | order
+	Field string
+	Want  string
+	Props []string
+}
+
 type ContractSet struct {
+	Shapes      []*ShapeSpec
 	ModelFields map[string]string // name -> "KeySort\x00ValSort"
 	ModelFieldUses map[string][]string // name -> preludes that declare the sorts it needs
 	WorldFields map[string]bool // model fields that are world state: framed like heaps (unchanged unless listed in modifies)
@@ -140,6 +158,7 @@ func parseTags(rest string) ([]string, string) {
 func (cs *ContractSet) LoadLines(path string, lines []string, lineNos []int, pkg string) error {
 	var cur *FuncContract
 	var curLemma *Lemma
+	var curShape *ShapeSpec
 	var filePreludes []string
 	loop := 0
 	lets := map[string]Expr{}
@@ -188,7 +207,27 @@ func (cs *ContractSet) LoadLines(path string, lines []string, lineNos []int, pkg
 		switch {
 		case kw == "prelude":
 			filePreludes = append(filePreludes, splitNames(rest)...)
+		case kw == "type": // type <Name> @Cxx,Cyy : a shape specification of a struct declaration
+			name, r, _ := strings.Cut(rest, " ")
+			tags, _ := parseTags(strings.TrimSpace(r))
+			full := name
+			if pkg != "" && !strings.Contains(name, "/") {
+				full = pkg + "." + name
+			}
+			curShape = &ShapeSpec{Type: full, Props: tags, File: path, Pkg: pkg}
+			cs.Shapes = append(cs.Shapes, curShape)
+			cur, curLemma = nil, nil
+		case (kw == "asn1" || kw == "json" || kw == "order") && curShape != nil && cur == nil && curLemma == nil:
+			if kw == "order" {
+				curShape.Lines = append(curShape.Lines, ShapeLine{Kind: "order", Want: strings.Join(strings.Fields(rest), " ")})
+			} else {
+				f, w, _ := strings.Cut(rest, " ")
+				curShape.Lines = append(curShape.Lines, ShapeLine{Kind: kw, Field: f, Want: strings.Trim(strings.TrimSpace(w), "\"")})
+			}
+		case kw == "props" && curShape != nil && cur == nil && curLemma == nil:
+			curShape.Props = append(curShape.Props, splitNames(rest)...)
 		case kw == "lemma":
+			curShape = nil
 			name, r, _ := strings.Cut(rest, " ")
 			tags, _ := parseTags(strings.TrimSpace(r))
 			curLemma = &Lemma{Name: name, Props: tags, File: path, Pkg: pkg, Uses: append([]string{}, filePreludes...)}
@@ -224,6 +263,7 @@ func (cs *ContractSet) LoadLines(path string, lines []string, lineNos []int, pkg
 		case kw == "assert":
 			cs.Asserts = append(cs.Asserts, AssertLine{rest, append([]string{}, filePreludes...)})
 		case kw == "func" || kw == "trusted":
+			curShape = nil
 			m := reFunc.FindStringSubmatch(line)
 			if m == nil {
 				return fail(fmt.Errorf("bad func line"))
